@@ -11,7 +11,10 @@ for d in seeded/C*-*/; do
   [ -n "$pat" ] && [[ "$name" != $pat ]] && continue
   [ -f "$d/patch.diff" ] || continue
   extra=$(python3 -c "import json;print(' '.join(json.load(open('$d/meta.json')).get('also_checked_by',[])))" 2>/dev/null)
-  res=$(timeout 1800 tools/try_mutant.sh "/verif/${d}patch.diff" "$tier" $p $extra 2>&1)
+  pf="/verif/${d}patch.diff"
+  # a patch re-applied (with fuzz or by hand) to a later /repo HEAD takes precedence
+  latest=$(ls -t /verif/${d}patch.at-*.diff 2>/dev/null | head -1); [ -n "$latest" ] && pf="$latest"
+  res=$(timeout 2400 tools/try_mutant.sh "$pf" "$tier" $p $extra 2>&1)
   line=$(echo "$res" | grep "^== " | tr '\n' ' ')
   echo "$name | $line" | tee -a "$tmp"
 done
